@@ -20,7 +20,7 @@ func init() {
 		RaceSample: true,
 		Rule: "genomes with abstract annotations of 1-6 coding features (strand +/-, 1-3 segments with boundaries inside codons, codon_start 1-3, overlapping/abutting/slippage joins, named and (GFF3) unnamed CDS with named mature_protein_region children, features touching position 1 and L) rendered to GenBank or GFF3; queries with A/C/G/T and IUPAC substitutions, gaps, '?' and insertions; FASTA form (variants) and SAM form (sam variants); --append-snps on and off; reference by ID or from the annotation; " +
 			"distinct non-trivial = distinct (format, form, strands, segment counts, unnamed/children present, and which of {intergenic nuc, synonymous nuc in CDS, aa, aa with 2-3 SNPs, resolved ambiguity codon, unnamed-only position, position in two features} occurred)",
-		Assumptions: []string{"every generated named CDS ends in a real stop codon (GenBank /translation convention) and the reference is A/C/G/T only",
+		Assumptions: []string{"every generated named CDS ends in a real stop codon (GenBank /translation convention) unless the no-stop option drew otherwise; the reference is A/C/G/T except in the 30% of cases that place IUPAC codes where no expansion changes a named protein: inside codons (GCN, CTR, YTA) and anywhere outside the named coding positions",
 			"duplicate identical records and the order of records at one position are not judged here (C12/C14)",
 			"codons containing '-' or '?' in the query have no defined translation: no aa record is demanded and none is allowed"},
 		MinNontriv: 60,
@@ -515,9 +515,10 @@ func stdinOrNil(use bool, s string) []byte {
 
 func strconvFloat(f float64) string { return strconv.FormatFloat(f, 'g', -1, 64) }
 
-// ambiguateReference puts IUPAC ambiguity codes into coding positions of the reference where
+// ambiguateReference puts IUPAC ambiguity codes into the reference: at coding positions where
 // every expansion leaves every feature's protein unchanged (GCN is still Ala, CTR still Leu,
-// YTA still Leu): the reference protein is as well defined as before.
+// YTA still Leu), so the reference protein is as well defined as before, and at positions outside
+// the coding features, where a query base is a difference iff it is not one of the code's bases.
 func ambiguateReference(r *fw.Rng, an *gen.Annotation) {
 	ref := []byte(an.Ref)
 	prot := func(f gen.Feature) string { return model.TranslateFeature(string(ref), f) }
@@ -531,6 +532,11 @@ func ambiguateReference(r *fw.Rng, an *gen.Annotation) {
 		f := an.Feats[r.Intn(len(an.Feats))]
 		pos := f.CodingPositions()
 		p := pos[r.Intn(len(pos))]
+		if r.Chance(0.5) {
+			// anywhere in the genome: between features, inside unnamed ones, in bases skipped by a
+			// phase or codon_start, where no protein constrains the code
+			p = 1 + r.Intn(len(ref))
+		}
 		old := ref[p-1]
 		cs, ok := codesWith[old]
 		if !ok {
